@@ -1,4 +1,5 @@
 import OmplModel.Proofs.Heap
+import OmplModel.Proofs.HeapHole
 /-!
 # C11 — the updatable heap always pops in order, whatever was removed or updated
 
@@ -93,6 +94,20 @@ theorem sort_correct {lt : κ → κ → Bool} (h : SWO lt) (s : Heap κ) (ks : 
     (s.sort lt ks).Perm ks ∧ (s.sort lt ks).Pairwise (fun x y => lt y x = false) ∧
       s.step lt (.sort ks) = s :=
   ⟨sort_perm lt s ks, sort_sorted h s ks, rfl⟩
+
+/-! ## The model's swap-based sifting is the code's hole-moving sifting
+
+`Model/HeapHole.lean` writes `percolateUp`/`percolateDown` exactly as BinaryHeap.h does (save the element
+in `tmp`, shift parents/children into the travelling hole, the trailing `child == n` block for a lone
+left child, write `tmp` once at the end and only if the hole moved).  They compute the same arrays as
+the swap-based `siftUp`/`siftDown` every theorem above is about — for every array, position and
+comparison function (no order law needed). -/
+
+theorem percolateUp_as_coded (lt : κ → κ → Bool) (a : Array (Elem κ)) (pos : Nat) :
+    percolateUp lt a pos = siftUp lt a pos := percolateUp_eq_siftUp lt a pos
+
+theorem percolateDown_as_coded (lt : κ → κ → Bool) (a : Array (Elem κ)) (pos : Nat) :
+    percolateDown lt a pos = siftDown lt a pos := percolateDown_eq_siftDown lt a pos
 
 /-! ## The defect repaired by the `fix:` commit (F1)
 
